@@ -11,6 +11,7 @@ Dynamic Time Warping (DTW)
 
 """
 import logging
+import numbers
 import array
 import math
 
@@ -226,8 +227,8 @@ class DTWSettings:
 
     def split_psi(self):
         psi_1b = psi_1e = psi_2b = psi_2e = 0
-        if type(self.psi) is int:
-            psi_1b = psi_1e = psi_2b = psi_2e = self.psi
+        if isinstance(self.psi, numbers.Integral):
+            psi_1b = psi_1e = psi_2b = psi_2e = int(self.psi)
         elif type(self.psi) in [tuple, list]:
             psi_1b, psi_1e, psi_2b, psi_2e = self.psi
         return psi_1b, psi_1e, psi_2b, psi_2e
